@@ -109,6 +109,31 @@ def pmap(spec, items, chunk=None, seed=0, timeout=3600, progress=None):
     return flat
 
 
+class time_limit:
+    """with time_limit(20): ...   raises TimeoutError in the code under test when it runs longer
+    (a hang becomes an observable outcome instead of blocking the worker until the watchdog)"""
+
+    def __init__(self, seconds):
+        self.seconds = seconds
+
+    def __enter__(self):
+        import signal
+
+        def handler(signum, frame):
+            raise TimeoutError("no result within {} s".format(self.seconds))
+
+        self._old = signal.signal(signal.SIGALRM, handler)
+        signal.setitimer(signal.ITIMER_REAL, self.seconds)
+        return self
+
+    def __exit__(self, *a):
+        import signal
+
+        signal.setitimer(signal.ITIMER_REAL, 0)
+        signal.signal(signal.SIGALRM, self._old)
+        return False
+
+
 _LOCAL = False
 
 
